@@ -43,7 +43,7 @@ def check(case, res):
     obs = graph.Obs(case, res)
     v = []
     labels = []
-    if res["status"] == "deadlock":
+    if res["status"] in ("deadlock", "livelock"):
         return Outcome([], ["deadlock_ignored_here"], False, obs.brief())
     J = case["jobs"] if case["jobs"] is not None else 1
     labels.append("jobs_absent" if case["jobs"] is None else "jobs=%d" % J if J == 1 else "jobs>=2")
